@@ -11,8 +11,8 @@ const MAX_FRAGMENTS: u8 = 4  /* 11.9.3.8, NOTE */ ;
 const MIN_FRAGMENT_SIZE: u64 = FRAGMENT_SIZE;
 
 const LENGTH_127: u64 = 127;
-const LENGTH_16K: u64 = 16 * 1024;
-const LENGTH_64K: u64 = 64 * 1024;
+pub(crate) const LENGTH_16K: u64 = 16 * 1024;
+pub(crate) const LENGTH_64K: u64 = 64 * 1024;
 
 const SMALL_NON_NEGATIVE_NUMBER: u64 = 64;
 
